@@ -236,10 +236,11 @@ def page_check(relpath_outdir):
     from symplyphysics.docs.printer_code import code_str
     from symplyphysics.docs.printer_latex import latex_str
     from symplyphysics.docs.parse import LawDirectiveType
-    stem = ".".join(relpath[:-3].split("/")[1:])
+    is_pkg = relpath.endswith("/__init__.py")
+    stem = ".".join((relpath[:-len("/__init__.py")] if is_pkg else relpath[:-3]).split("/")[1:])
     page = os.path.join(outdir, stem + ".rst")
     try:
-        res = docsrc.members_of(relpath)
+        res = docsrc.members_of(relpath) if docsrc.has_title(relpath) else None
     except Exception as e:
         return [{"name": f"page:{relpath}", "verdict": "unencoded", "why": f"pipeline raised {type(e).__name__}"}]
     if res is None:
@@ -382,7 +383,7 @@ def run(ctx):
     ctx.functions_encoded = ["docs.patch.patch_sympy_evaluate", "core.processors.disable_sympy_evaluation/reset_sympy_evaluation", "docs.parse._find_law_directives",
                              "docs.build.generate_laws_docs (concrete run)", "docs.view._members_to_doc (through the run)"]
     ctx.bounds = [f"all {len(files)} catalogue source files", "CrossHair strings of 1-3 characters without ':'"]
-    ctx.outside = ["Sphinx HTML build and docs/build.py argument handling", "package pages are checked for existence/determinism only",
+    ctx.outside = ["Sphinx HTML build and docs/build.py argument handling", 
                    "an exception raised between disable and reset would leak the flag (no catalogue module raises there; generation aborts in that case)"]
     ctx.trusted = ["z3", "CrossHair", "the concrete generation run is what it is: a run"]
     # S1
@@ -446,7 +447,20 @@ def run(ctx):
                 ctx.ob("E:two runs byte-identical", "discharged", nontrivial=False)
             else:
                 ctx.ob("E:two runs byte-identical", "inconclusive", "outputs differ between two runs (PYTHONHASHSEED fixed)")
-            pres = pmap(page_check, [(f, d1) for f in files], chunk=8)
+            srcs = docsrc.all_documented_sources()
+            expected = set()
+            for f in srcs:
+                try:
+                    if docsrc.has_title(f):
+                        expected.add(".".join((f[:-len("/__init__.py")] if f.endswith("/__init__.py") else f[:-3]).split("/")[1:]) + ".rst")
+                except Exception:
+                    pass
+            actual = {os.path.relpath(os.path.join(r_, f_), d1) for r_, _, fs_ in os.walk(d1) for f_ in fs_}
+            if expected == actual:
+                ctx.ob("E:exactly one page per documented module and package", "discharged", nontrivial=False)
+            else:
+                ctx.violation("C19:E:page-set", f"pages missing: {sorted(expected - actual)[:5]}; unexpected pages: {sorted(actual - expected)[:5]}", REPLAY_GEN.format(root=ROOT))
+            pres = pmap(page_check, [(f, d1) for f in srcs], chunk=8)
             for rl in pres:
                 if isinstance(rl, dict):
                     ctx.harness_errors.append(rl.get("error", "")[-300:])
